@@ -1443,6 +1443,9 @@ func execOracle(ops []string, st *Stats) (outs []string, oracle []string) {
 			if fin.LastCleanupTs > fin.ReadDoneUntil {
 				fail(i, fmt.Sprintf("[cleanup-ahead-of-readmark] lastCleanupTs=%d > readMark.DoneUntil=%d", fin.LastCleanupTs, fin.ReadDoneUntil))
 			}
+			if fin.TxnDoneUntil >= fin.NextTxnTs {
+				fail(i, fmt.Sprintf("[txnmark-ahead-of-next] txnMark.DoneUntil=%d although timestamp %d has not been handed out yet", fin.TxnDoneUntil, fin.NextTxnTs))
+			}
 		}
 		wk := "-"
 		if len(woke) > 0 {
@@ -1618,7 +1621,113 @@ func genTxnManagedSession(rng *rand.Rand, st *Stats) []string {
 	return ops
 }
 
+// genTxnPipeSession: an on-disk DB in normal mode with the write pipeline under control
+// (`reset <detect> 2`). The shape that matters for C03: a commit rejected by sendToWriteCh after its
+// timestamp was handed out (writes blocked), then a commit held in the pipeline (timestamp handed
+// out, nothing applied), transactions started in that window (they must block), reads issued for
+// them during the window (answered `blocked`) and after the release.
+func genTxnPipeSession(rng *rand.Rand, st *Stats) []string {
+	detect := rng.Intn(8) != 0
+	ops := []string{fmt.Sprintf("reset %d 2", b01(detect))}
+	nkeys := 2 + rng.Intn(3)
+	next := 0 // next transaction id
+	val := 0
+	newTxn := func(upd bool) int {
+		ops = append(ops, fmt.Sprintf("begin %d %d", next, b01(upd)))
+		next++
+		return next - 1
+	}
+	setKeys := func(tid, n int) []string {
+		var ks []string
+		perm := rng.Perm(nkeys)
+		for j := 0; j < n && j < nkeys; j++ {
+			k := txnKeys[perm[j]]
+			val++
+			ops = append(ops, fmt.Sprintf("set %d %s %02x", tid, k, val%256))
+			ks = append(ks, k)
+		}
+		return ks
+	}
+	// some committed data first
+	t0 := newTxn(true)
+	setKeys(t0, nkeys)
+	ops = append(ops, fmt.Sprintf("commit %d", t0))
+	var longReaders []int
+	rounds := 1 + rng.Intn(4)
+	for r := 0; r < rounds; r++ {
+		if rng.Intn(3) == 0 {
+			lr := newTxn(rng.Intn(2) == 0)
+			ops = append(ops, fmt.Sprintf("get %d %s", lr, txnKeys[rng.Intn(nkeys)]))
+			longReaders = append(longReaders, lr)
+		}
+		if rng.Intn(3) != 0 {
+			// commits rejected while writes are blocked (DropPrefix/DropAll do this)
+			ops = append(ops, "block")
+			for n := 1 + rng.Intn(2); n > 0; n-- {
+				x := newTxn(true)
+				if rng.Intn(3) == 0 {
+					ops = append(ops, fmt.Sprintf("get %d %s", x, txnKeys[rng.Intn(nkeys)]))
+				}
+				setKeys(x, 1+rng.Intn(2))
+				ops = append(ops, fmt.Sprintf("commit %d", x))
+			}
+			if rng.Intn(4) == 0 {
+				y := newTxn(false) // a reader started while writes are blocked
+				ops = append(ops, fmt.Sprintf("get %d %s", y, txnKeys[rng.Intn(nkeys)]), fmt.Sprintf("discard %d", y))
+			}
+			ops = append(ops, "unblock")
+		}
+		// a commit held in the pipeline
+		w := newTxn(true)
+		if rng.Intn(3) == 0 {
+			ops = append(ops, fmt.Sprintf("get %d %s", w, txnKeys[rng.Intn(nkeys)]))
+		}
+		wk := setKeys(w, 2+rng.Intn(2))
+		ops = append(ops, fmt.Sprintf("hold %d", w))
+		var waiting []int
+		for n := 1 + rng.Intn(2); n > 0; n-- {
+			rd := newTxn(rng.Intn(3) == 0)
+			waiting = append(waiting, rd)
+			ops = append(ops, fmt.Sprintf("get %d %s", rd, wk[0])) // during the window
+		}
+		for _, lr := range longReaders {
+			if rng.Intn(2) == 0 {
+				ops = append(ops, fmt.Sprintf("get %d %s", lr, wk[rng.Intn(len(wk))]))
+			}
+		}
+		if rng.Intn(4) == 0 {
+			ops = append(ops, fmt.Sprintf("commit %d", waiting[0])) // answered blocked / skip
+		}
+		ops = append(ops, "release")
+		for _, rd := range waiting {
+			for _, k := range wk {
+				ops = append(ops, fmt.Sprintf("get %d %s", rd, k))
+			}
+			if rng.Intn(2) == 0 {
+				ops = append(ops, fmt.Sprintf("iter %d", rd))
+			}
+			if rng.Intn(2) == 0 {
+				ops = append(ops, fmt.Sprintf("set %d %s ee", rd, txnKeys[rng.Intn(nkeys)]))
+			}
+			ops = append(ops, []string{fmt.Sprintf("commit %d", rd), fmt.Sprintf("discard %d", rd)}[rng.Intn(2)])
+		}
+		// an ordinary commit afterwards
+		z := newTxn(true)
+		setKeys(z, 1)
+		ops = append(ops, fmt.Sprintf("commit %d", z))
+	}
+	for _, lr := range longReaders {
+		ops = append(ops, []string{fmt.Sprintf("commit %d", lr), fmt.Sprintf("discard %d", lr)}[rng.Intn(2)])
+	}
+	st.Inc(fmt.Sprintf("txn-session:pipeline,detect=%v", detect))
+	st.Inc("txn-session-len:" + sizeBucket(len(ops)))
+	return ops
+}
+
 func genTxnSession(rng *rand.Rand, st *Stats) []string {
+	if params["mode"] != "normal" && rng.Intn(6) == 0 {
+		return genTxnPipeSession(rng, st)
+	}
 	if params["mode"] != "normal" && rng.Intn(3) == 0 {
 		return genTxnManagedSession(rng, st)
 	}
@@ -1713,6 +1822,20 @@ type dbTxn struct {
 	pend    map[string]*string // own writes (nil = delete)
 	readLog map[string]string  // tracked reads: key -> observed ("" = not found, else "v"+hex)
 	ref     *refTxn
+	// NewTransaction has not returned yet (a commit at or below its read timestamp is in flight)
+	blocked bool
+	ch      chan *badger.Txn
+	expectR uint64
+	fresh   bool // returned during the current op
+}
+
+// heldCommit is a Commit parked in the write pipeline: timestamp handed out, nothing applied.
+type heldCommit struct {
+	tid    int
+	ts     uint64
+	t      *dbTxn
+	done   chan error
+	writes map[string]bool
 }
 
 type dbVersion struct {
@@ -1730,6 +1853,47 @@ type dbSession struct {
 	history map[string][]dbVersion // committed versions per key, ascending ts
 	fp      map[uint64]string
 	lastTs  uint64
+	// pipeline sessions (`reset <detect> 2`): on-disk DB, ops block/unblock/hold/release
+	pipe        bool
+	dir         string
+	blocked     bool
+	held        *heldCommit
+	releaseHold func()
+}
+
+// txnBeginBody is the goroutine of a NewTransaction that may block (its name is looked for in stacks).
+func txnBeginBody(db *badger.DB, update bool, ch chan *badger.Txn) {
+	ch <- db.NewTransaction(update)
+}
+
+// outstandingBegins counts the NewTransaction calls that have not returned, collecting the ones
+// that have.
+func (s *dbSession) outstandingBegins() int {
+	n := 0
+	for _, t := range s.txns {
+		if !t.blocked {
+			continue
+		}
+		select {
+		case x := <-t.ch:
+			t.txn, t.blocked, t.fresh = x, false, true
+			t.readTs = x.ReadTs()
+			t.ref.readTs = t.readTs
+			t.ref.state = rtActive
+		default:
+			n++
+		}
+	}
+	return n
+}
+
+func openTxnDBDisk(detect bool, dir string) (*badger.DB, error) {
+	opt := badger.DefaultOptions(dir).WithDetectConflicts(detect).
+		WithLoggingLevel(badger.ERROR).WithMemTableSize(1 << 20).WithValueThreshold(1 << 10).
+		WithValueLogFileSize(1 << 20).WithNumCompactors(2).WithNumMemtables(2).
+		WithCompression(options.None).WithBlockCacheSize(0).WithIndexCacheSize(0).
+		WithMetricsEnabled(false).WithSyncWrites(false)
+	return badger.Open(opt)
 }
 
 func (s *dbSession) snapshot(key string, ts uint64) *string {
@@ -1779,8 +1943,38 @@ func execTxn(ops []string, st *Stats) (outs []string, oracle []string) {
 		if s == nil {
 			return
 		}
+		if s.held != nil {
+			s.releaseHold()
+			select {
+			case <-s.held.done:
+			case <-time.After(strandedTimeout):
+			}
+			s.held = nil
+		}
+		if s.blocked {
+			badger.VerifUnblockWrites(s.db)
+			s.blocked = false
+		}
+		for _, t := range s.txns {
+			if t.blocked {
+				select {
+				case x := <-t.ch:
+					t.txn, t.blocked = x, false
+					t.readTs = x.ReadTs()
+				case <-time.After(strandedTimeout):
+					t.closed, t.leaked = true, true
+				}
+			}
+		}
+		if s.dir != "" {
+			defer os.RemoveAll(s.dir)
+		}
 		leaked := false
 		for _, t := range s.txns {
+			if t.blocked {
+				leaked = true
+				continue
+			}
 			if !t.closed && (s.managed || t.readTs >= s.v.State().ReadDoneUntil) {
 				t.txn.Discard()
 			} else if !t.closed || t.leaked {
@@ -1806,17 +2000,33 @@ func execTxn(ops []string, st *Stats) (outs []string, oracle []string) {
 			continue
 		}
 		if w[0] == "reset" {
-			if (len(w) != 2 && len(w) != 3) || (w[1] != "0" && w[1] != "1") || (len(w) == 3 && w[2] != "0" && w[2] != "1") {
+			if (len(w) != 2 && len(w) != 3) || (w[1] != "0" && w[1] != "1") || (len(w) == 3 && w[2] != "0" && w[2] != "1" && w[2] != "2") {
 				outs[i] = "bad-op"
 				continue
 			}
 			closeSession()
 			managed := len(w) == 3 && w[2] == "1"
-			db, err := openTxnDB(w[1] == "1", managed)
+			pipe := len(w) == 3 && w[2] == "2"
+			var db *badger.DB
+			var err error
+			dir := ""
+			if pipe {
+				base := os.Getenv("VERIF_SCRATCH")
+				if base == "" {
+					base = os.TempDir()
+				}
+				if dir, err = os.MkdirTemp(base, "txnpipe-"); err != nil {
+					panic(err)
+				}
+				db, err = openTxnDBDisk(w[1] == "1", dir)
+			} else {
+				db, err = openTxnDB(w[1] == "1", managed)
+			}
 			if err != nil {
 				panic(err)
 			}
 			s = &dbSession{db: db, v: badger.VerifOracleOf(db), detect: w[1] == "1", managed: managed,
+				pipe: pipe, dir: dir,
 				history: map[string][]dbVersion{}, fp: map[uint64]string{}}
 			s.ref = newRefOracle(managed, s.detect, 0)
 			orcBarrier(s.v)()
@@ -1824,7 +2034,111 @@ func execTxn(ops []string, st *Stats) (outs []string, oracle []string) {
 			st.Inc("op:reset")
 			continue
 		}
-		if s == nil || len(w) < 2 {
+		if s == nil {
+			outs[i] = "bad-op"
+			continue
+		}
+		// invariants of the oracle state checked after every op of this engine
+		checkState := func(fin badger.VerifOracleState) {
+			if s.managed {
+				return
+			}
+			for tid2, t2 := range s.txns {
+				if !t2.closed && !t2.blocked && t2.readTs < fin.ReadDoneUntil {
+					fail(i, fmt.Sprintf("[readmark-ahead-of-open-txn] readMark.DoneUntil=%d although transaction %d with readTs %d is open", fin.ReadDoneUntil, tid2, t2.readTs))
+				}
+			}
+			if fin.LastCleanupTs > fin.ReadDoneUntil {
+				fail(i, fmt.Sprintf("[cleanup-ahead-of-readmark] lastCleanupTs=%d > readMark.DoneUntil=%d", fin.LastCleanupTs, fin.ReadDoneUntil))
+			}
+			if fin.TxnDoneUntil >= fin.NextTxnTs {
+				fail(i, fmt.Sprintf("[txnmark-ahead-of-next] txnMark.DoneUntil=%d although timestamp %d has not been handed out yet: the commit that gets it will be considered applied before it is written", fin.TxnDoneUntil, fin.NextTxnTs))
+			}
+			if s.held != nil && fin.TxnDoneUntil >= s.held.ts {
+				fail(i, fmt.Sprintf("[txnmark-ahead-of-pending-commit] txnMark.DoneUntil=%d although commit %d is still in the write pipeline", fin.TxnDoneUntil, s.held.ts))
+			}
+		}
+		if len(w) == 1 && (w[0] == "block" || w[0] == "unblock" || w[0] == "release") {
+			st.Inc("op:" + w[0])
+			res := "skip"
+			switch {
+			case w[0] == "block" && s.pipe && s.held == nil && !s.blocked:
+				if err := badger.VerifBlockWrites(s.db); err != nil {
+					res = "err=" + err.Error()
+				} else {
+					s.blocked = true
+					res = "ok"
+				}
+			case w[0] == "unblock" && s.pipe && s.blocked:
+				badger.VerifUnblockWrites(s.db)
+				s.blocked = false
+				res = "ok"
+			case w[0] == "release" && s.held != nil:
+				h := s.held
+				s.releaseHold()
+				var cerr error
+				select {
+				case cerr = <-h.done:
+				case <-time.After(strandedTimeout):
+					fail(i, "[commit-stuck] the held Commit did not return after the write pipeline was released")
+					panic(barrierStuck{"database (held Commit did not return)"})
+				}
+				s.held = nil
+				if cerr != nil {
+					res = "err=" + cerr.Error()
+				} else {
+					res = fmt.Sprintf("ok ts=%d", h.ts)
+				}
+				for _, c := range s.ref.commits {
+					if c.ts == h.ts {
+						c.done = true
+					}
+				}
+				if h.ts > s.lastTs {
+					s.lastTs = h.ts
+				}
+				// every NewTransaction that waited for this commit must return now
+				for _, t2 := range s.txns {
+					t2.fresh = false
+				}
+				settle("txnBeginBody", orcBarrier(s.v), s.outstandingBegins, false)
+				var woke []string
+				for tid2, t2 := range s.txns {
+					if t2.blocked {
+						select {
+						case x := <-t2.ch:
+							t2.txn, t2.blocked, t2.fresh = x, false, true
+							t2.readTs = x.ReadTs()
+							t2.ref.readTs, t2.ref.state = t2.readTs, rtActive
+						case <-time.After(strandedTimeout):
+							strandedTimeout = 50 * time.Millisecond
+							fail(i, fmt.Sprintf("[reader-stranded] NewTransaction %d still blocked although every commit is applied", tid2))
+							t2.blocked, t2.closed, t2.leaked = false, true, true
+						}
+					}
+					if t2.fresh {
+						t2.fresh = false
+						if t2.readTs != t2.expectR {
+							fail(i, fmt.Sprintf("[readts-value] readTs %d, nextTxnTs-1 was %d", t2.readTs, t2.expectR))
+						}
+						woke = append(woke, fmt.Sprintf("%d:%d", tid2, t2.readTs))
+					}
+				}
+				wk := "-"
+				if len(woke) > 0 {
+					wk = strings.Join(woke, ",")
+				}
+				res += " woke=" + wk
+				orcBarrier(s.v)()
+				s.v.Cleanup()
+			}
+			orcBarrier(s.v)()
+			fin := s.v.State()
+			checkState(fin)
+			outs[i] = res + " " + dumpOracle(fin, keyName)
+			continue
+		}
+		if len(w) < 2 {
 			outs[i] = "bad-op"
 			continue
 		}
@@ -1872,6 +2186,94 @@ func execTxn(ops []string, st *Stats) (outs []string, oracle []string) {
 			return kb
 		}
 		switch {
+		case t != nil && t.blocked && (w[0] == "get" || w[0] == "set" || w[0] == "del" || w[0] == "iter" || w[0] == "commit" || w[0] == "discard" || w[0] == "hold"):
+			res = "blocked" // NewTransaction has not returned
+		case w[0] == "hold" && len(w) == 2:
+			if !s.pipe || s.held != nil || s.blocked || t == nil {
+				break
+			}
+			if t.closed {
+				res = "err=discarded"
+				break
+			}
+			if !t.update || len(t.pend) == 0 {
+				break
+			}
+			before := s.v.State()
+			if t.readTs < before.ReadDoneUntil {
+				res = "assert"
+				fail(i, fmt.Sprintf("[readmark-ahead-of-open-txn] readMark.DoneUntil=%d although transaction %d with readTs %d is open", before.ReadDoneUntil, tid, t.readTs))
+				t.closed, t.leaked = true, true
+				break
+			}
+			wantConflict := s.ref.conflictSpec(t.ref)
+			s.releaseHold = badger.VerifHoldWrites(s.db)
+			h := &heldCommit{tid: tid, t: t, done: make(chan error, 1), writes: map[string]bool{}}
+			go func() { h.done <- t.txn.Commit() }()
+			t.closed = true
+			t.ref.state = rtClosed
+			// wait until the commit timestamp has been handed out, or Commit is back (conflict)
+			var early error
+			returned := false
+			deadline := time.Now().Add(strandedTimeout)
+			for {
+				select {
+				case early = <-h.done:
+					returned = true
+				default:
+				}
+				if returned || s.v.State().NextTxnTs != before.NextTxnTs {
+					break
+				}
+				if time.Now().After(deadline) {
+					fail(i, "[commit-stuck] Commit neither returned nor obtained a commit timestamp")
+					panic(barrierStuck{"database (Commit did not start)"})
+				}
+				time.Sleep(50 * time.Microsecond)
+			}
+			if returned {
+				s.releaseHold()
+				if early == badger.ErrConflict {
+					res = "conflict"
+					if !wantConflict {
+						fail(i, fmt.Sprintf("[false-conflict] ErrConflict although no transaction committed after read timestamp %d wrote a key it read", t.readTs))
+					}
+				} else if early != nil {
+					res = "err=" + early.Error()
+				} else {
+					res = "err=commit-went-through" // the gate did not hold: a harness defect
+					fail(i, "[hold-failed] Commit returned nil although the write pipeline is held")
+				}
+			} else {
+				h.ts = before.NextTxnTs
+				res = fmt.Sprintf("held ts=%d", h.ts)
+				if wantConflict {
+					fail(i, fmt.Sprintf("[conflict-missed] commit accepted at %d although a transaction committed after its read timestamp %d wrote a key it read", h.ts, t.readTs))
+				}
+				if h.ts <= s.lastTs {
+					fail(i, fmt.Sprintf("[commit-ts] commit timestamp %d, previous %d", h.ts, s.lastTs))
+				}
+				for _, c := range s.ref.commits {
+					if c.ts == h.ts {
+						fail(i, fmt.Sprintf("[commit-ts] commit timestamp %d was already handed out to another transaction", h.ts))
+					}
+				}
+				s.ref.next = h.ts + 1
+				s.ref.commits = append(s.ref.commits, &refCommit{ts: h.ts, writes: copySet(t.ref.writes), done: false})
+				// its writes belong to every snapshot at or above ts (readers there must wait)
+				var ks []string
+				for k := range t.pend {
+					ks = append(ks, k)
+				}
+				sort.Strings(ks)
+				for _, k := range ks {
+					h.writes[k] = true
+					s.history[k] = append(s.history[k], dbVersion{ts: h.ts, val: t.pend[k]})
+				}
+				s.held = h
+			}
+			orcBarrier(s.v)()
+			s.v.Cleanup()
 		case w[0] == "beginat" && len(w) == 4 && (w[3] == "0" || w[3] == "1"):
 			rts, err := parseU(w[2])
 			if err != nil {
@@ -1967,6 +2369,28 @@ func execTxn(ops []string, st *Stats) (outs []string, oracle []string) {
 			}
 			nt := &dbTxn{update: w[2] == "1", pend: map[string]*string{}, readLog: map[string]string{}}
 			want := s.v.State().NextTxnTs - 1
+			if s.held != nil {
+				// a commit is in the pipeline: NewTransaction must wait for it
+				nt.blocked, nt.ch, nt.expectR = true, make(chan *badger.Txn, 1), want
+				nt.ref = &refTxn{readTs: want, update: nt.update, writes: map[uint64]bool{}, state: rtBlocked}
+				s.ref.txns = append(s.ref.txns, nt.ref)
+				s.txns = append(s.txns, nt)
+				go txnBeginBody(s.db, nt.update, nt.ch)
+				if !settle("txnBeginBody", orcBarrier(s.v), s.outstandingBegins, true) {
+					fail(i, "[reader-lost] a NewTransaction goroutine is neither back nor parked")
+				}
+				if nt.blocked {
+					res = "blocked"
+					break
+				}
+				nt.fresh = false
+				fail(i, fmt.Sprintf("[reader-early] NewTransaction returned readTs %d while commit %d is still in the write pipeline (timestamp handed out, nothing applied)", nt.readTs, s.held.ts))
+				if nt.readTs != want {
+					fail(i, fmt.Sprintf("[readts-value] readTs %d, nextTxnTs-1 was %d", nt.readTs, want))
+				}
+				res = fmt.Sprintf("r=%d", nt.readTs)
+				break
+			}
 			if !withTimeout(func() { nt.txn = s.db.NewTransaction(nt.update) }) {
 				fail(i, "[reader-stranded] NewTransaction blocked although no commit is pending")
 				panic(barrierStuck{"database (NewTransaction did not return)"})
@@ -2016,7 +2440,11 @@ func execTxn(ops []string, st *Stats) (outs []string, oracle []string) {
 					}
 				}
 				if obs(want) != obs(got) {
-					fail(i, fmt.Sprintf("[snapshot-read] Get returned %s, snapshot at %d (own writes first) has %s", obs(got), t.readTs, obs(want)))
+					if s.held != nil && s.held.ts <= t.readTs && s.held.writes[w[2]] {
+						fail(i, fmt.Sprintf("[C03-read-partial] transaction with readTs %d reads %s=%s, but commit %d (<= its read timestamp) writes %s and is still in the write pipeline: it will read that commit's keys once applied, i.e. it observes only part of the transaction", t.readTs, w[2], obs(got), s.held.ts, obs(want)))
+					} else {
+						fail(i, fmt.Sprintf("[snapshot-read] Get returned %s, snapshot at %d (own writes first) has %s", obs(got), t.readTs, obs(want)))
+					}
 				}
 			}
 		case (w[0] == "set" && len(w) == 4) || (w[0] == "del" && len(w) == 3):
@@ -2107,7 +2535,7 @@ func execTxn(ops []string, st *Stats) (outs []string, oracle []string) {
 				fail(i, fmt.Sprintf("[snapshot-iter] iterator yielded %v, snapshot at %d has %v", items, t.readTs, want))
 			}
 		case w[0] == "commit" && len(w) == 2:
-			if t == nil || s.managed {
+			if t == nil || s.managed || s.held != nil {
 				break
 			}
 			if t.closed {
@@ -2140,6 +2568,19 @@ func execTxn(ops []string, st *Stats) (outs []string, oracle []string) {
 				}
 				if !wantConflict {
 					fail(i, fmt.Sprintf("[false-conflict] ErrConflict although no transaction committed after read timestamp %d wrote a key it read", t.readTs))
+				}
+			case err == badger.ErrBlockedWrites:
+				// rejected by sendToWriteCh after newCommitTs: the timestamp is consumed
+				// (doneCommit), nothing is written
+				res = "blocked-writes"
+				st.Inc("txn:blocked-writes")
+				if after.NextTxnTs == before.NextTxnTs+1 {
+					ts := after.NextTxnTs - 1
+					s.ref.next = ts + 1
+					s.ref.commits = append(s.ref.commits, &refCommit{ts: ts, writes: copySet(t.ref.writes), done: true})
+				}
+				if wantConflict {
+					fail(i, "[conflict-missed] ErrBlockedWrites instead of ErrConflict: the conflict check comes first")
 				}
 			case err != nil:
 				res = "err=" + err.Error()
@@ -2203,14 +2644,7 @@ func execTxn(ops []string, st *Stats) (outs []string, oracle []string) {
 		}
 		orcBarrier(s.v)()
 		fin := s.v.State()
-		for tid2, t2 := range s.txns {
-			if !s.managed && !t2.closed && t2.readTs < fin.ReadDoneUntil {
-				fail(i, fmt.Sprintf("[readmark-ahead-of-open-txn] readMark.DoneUntil=%d although transaction %d with readTs %d is open", fin.ReadDoneUntil, tid2, t2.readTs))
-			}
-		}
-		if !s.managed && fin.LastCleanupTs > fin.ReadDoneUntil {
-			fail(i, fmt.Sprintf("[cleanup-ahead-of-readmark] lastCleanupTs=%d > readMark.DoneUntil=%d", fin.LastCleanupTs, fin.ReadDoneUntil))
-		}
+		checkState(fin)
 		outs[i] = res + " " + dumpOracle(fin, keyName)
 	}
 	closeSession()
